@@ -42,9 +42,14 @@ Fixpoint list_eqb {A} (eqb : A -> A -> bool) (a b : list A) : bool :=
   | _, _ => false
   end.
 
+(* the machine-readable payload is compared where a property speaks about it: line-count (actual
+   count, operator, bound), check-lua (the string the script returned), check-ai (the reply) *)
+Definition data_matters (code : N) : bool := (code =? V_COUNT) || (code =? V_LUA) || (code =? V_AI).
+
 Definition diag_eqb (a b : diag) : bool :=
   (d_sl a =? d_sl b) && (d_sc a =? d_sc b) && (d_el a =? d_el b) && (d_ec a =? d_ec b)
-  && (d_code a =? d_code b) && (d_sev a =? d_sev b) && list_eqb str_eqb (d_data a) (d_data b).
+  && (d_code a =? d_code b) && (d_sev a =? d_sev b)
+  && (negb (data_matters (d_code a)) || list_eqb str_eqb (d_data a) (d_data b)).
 
 Definition pdiag_eqb (a b : str * diag) : bool :=
   str_eqb (fst a) (fst b) && diag_eqb (snd a) (snd b).
